@@ -59,7 +59,7 @@ fn cmp(acc: &mut Acc, case: &Case, key: &str, input: Value, lib: Result<Vec<u8>,
     }
 }
 
-const C13_LONG: [usize; 10] = [4095, 4097, 16385, 65535, 65536, 65537, 70000, 131073, (1 << 20) + 4097, 3_000_001];
+const C13_LONG: [usize; 13] = [4095, 4097, 16385, 65535, 65536, 65537, 70000, 131073, (1 << 20) + 4097, 3_000_001, 4 * 1024 * 1024 + 7, 8 * 1024 * 1024 + 5, 16 * 1024 * 1024 + 1];
 const HMAC_KLEN: [usize; 12] = [0, 1, 20, 32, 63, 64, 65, 100, 127, 128, 129, 200];
 const HMAC_MLEN: [usize; 8] = [0, 1, 55, 56, 64, 65, 128, 200];
 const PB_LEN: [usize; 5] = [0, 1, 64, 65, 129];
